@@ -137,3 +137,19 @@ package auth
 //@   ensures [C16:stored-under-same-triple] result1 == nil && ccFirst ==> syncHas(cm, box(registry)) && e1.scheme == scheme && syncHas(lockOf(e1, "tokens"), box(key)) && syncVal(lockOf(e1, "tokens"), box(key)) == box(result0)
 //@   ensures [C16:scheme-change-invalidates] result1 == nil && ccFirst && old(syncHas(lockOf(cc, "cache"), box(registry))) && old(as(syncVal(lockOf(cc, "cache"), box(registry)), *cacheEntry).scheme) != scheme ==> (forall k any :: k != box(key) ==> !syncHas(lockOf(e1, "tokens"), k))
 //@   ensures [C16:ri] ccRI(cc)
+//@
+//@ // ---- single-context cache: the caller's fetch runs through the primary cache only; the
+//@ // host-level copy is seeded with the token already obtained (one token fetch per Set, C16)
+//@ ghost local fbFetchGiven int
+//@ func (*fallbackCache).Set
+//@   requires [wf] fc != nil && fc.primary != nil && fc.secondary != nil
+//@   opt trust-frame
+//@   entry set fbFetchGiven = 0
+//@   call fc.primary.Set requires [C16:primary-entry-under-the-same-triple-with-the-callers-fetch] args.registry == registry && args.scheme == scheme && args.key == key && args.fetch == fetch
+//@   call fc.primary.Set set fbFetchGiven = fbFetchGiven + 1
+//@   call fc.secondary.Set requires [C16:host-level-copy-never-fetches-again] args.fetch != fetch && args.registry == registry && args.scheme == scheme
+//@   ensures [C16:callers-fetch-handed-to-one-cache-only] fbFetchGiven <= 1
+//@   modifies alloc
+//@ func (*fallbackCache).Set$1
+//@   ensures [C16:seeded-with-the-token-already-fetched] result0 == token && result1 == nil
+//@   modifies nothing
